@@ -160,7 +160,7 @@ public:
         }
         else
         {
-            sockaddr_in a{}; a.sin_family = AF_INET; a.sin_addr.s_addr = htonl(INADDR_LOOPBACK); a.sin_port = 0;
+            sockaddr_in a{}; a.sin_family = AF_INET; a.sin_addr.s_addr = htonl(INADDR_ANY); a.sin_port = 0;     // reachable on every 127.0.0.x
             ::bind(lfd, reinterpret_cast<sockaddr *>(&a), sizeof a); ::listen(lfd, 4);
             socklen_t l = sizeof a; getsockname(lfd, reinterpret_cast<sockaddr *>(&a), &l); lport = ntohs(a.sin_port);
         }
